@@ -337,17 +337,36 @@ fn ksf(t: &str) -> R<Option<HKsf>> {
         "A" => HKsf::Argon(Box::new(argon2::Argon2::default())),
         _ if t.starts_with('X') && t.len() == 3 => HKsf::Xor(bytes(&t[1..])?[0]),
         _ if t.starts_with('A') => {
-            let p = t[1..].split(',').map(int).collect::<R<Vec<u32>>>()?;
-            if p.len() != 3 {
-                return bad("bad ksf token (want A<m>,<t>,<p>)");
+            // A<m>,<t>,<p>[,<alg: i|d|id>[,<version: 16|19>[,<secret hex>]]]
+            let f: Vec<&str> = t[1..].split(',').collect();
+            if f.len() < 3 || f.len() > 6 {
+                return bad("bad ksf token (want A<m>,<t>,<p>[,alg[,version[,secret]]])");
             }
+            let p = f[..3].iter().map(|x| int(x)).collect::<R<Vec<u32>>>()?;
             let params = argon2::Params::new(p[0], p[1], p[2], None)
                 .or_else(|e| bad(format!("argon2 params rejected: {e}")))?;
-            HKsf::Argon(Box::new(argon2::Argon2::new(
-                argon2::Algorithm::Argon2id,
-                argon2::Version::V0x13,
-                params,
-            )))
+            let alg = match f.get(3).copied().unwrap_or("id") {
+                "i" => argon2::Algorithm::Argon2i,
+                "d" => argon2::Algorithm::Argon2d,
+                "id" => argon2::Algorithm::Argon2id,
+                _ => return bad("bad argon2 algorithm (want i|d|id)"),
+            };
+            let ver = match f.get(4).copied().unwrap_or("19") {
+                "16" => argon2::Version::V0x10,
+                "19" => argon2::Version::V0x13,
+                _ => return bad("bad argon2 version (want 16|19)"),
+            };
+            match f.get(5) {
+                None => HKsf::Argon(Box::new(argon2::Argon2::new(alg, ver, params))),
+                Some(sec) => {
+                    // the instance borrows its secret for 'static: leaked on purpose (a few bytes per request)
+                    let secret: &'static [u8] = Box::leak(bytes(sec)?.into_boxed_slice());
+                    HKsf::Argon(Box::new(
+                        argon2::Argon2::new_with_secret(secret, alg, ver, params)
+                            .or_else(|e| bad(format!("argon2 secret rejected: {e}")))?,
+                    ))
+                }
+            }
         }
         _ => return bad("bad ksf token"),
     }))
